@@ -47,7 +47,7 @@ def run(ctx):
 
     camp = navlib.Campaign(ctx, exe, judge, METHODS, "c12")
     thorough = ctx.thorough()
-    valid = navlib.gen_valid_docs(ctx.rng, 2.2e8 if thorough else 4.5e7)
+    valid = navlib.gen_valid_docs(ctx.rng, 3.5e8 if thorough else 4.5e7)
     malformed = navlib.gen_malformed_docs(ctx.rng, 5000 if thorough else 1000, 10)
     short = navlib.gen_short_docs(ctx.rng, 120 if thorough else 40)
     import time
